@@ -8,6 +8,7 @@ FcEvaluator subclass whose evaluate_9xx methods return (False, None), so that th
 messages.  Oracle: Boolean evaluation of the AST; error message present iff unfulfilled.
 """
 
+import copy
 import itertools
 
 from hypothesis import strategies as st
@@ -93,13 +94,15 @@ def check(case):
     units = []
     depth = ref.depth_of(ast)
     kinds = {n[0] for _, n in ref.sites(ast) if not ref.is_atom(n)}
+    # parse once, evaluate under every truth assignment (building a truth table): the tree must stay what it was
+    parsed = sut.call(api.parse_cond, text)
+    if not parsed.ok:
+        fail("parse", f"well-formed expression {text!r} was not parsed: {parsed!r}")
+    pristine = copy.deepcopy(parsed.value)
     for combo in itertools.product([True, False], repeat=len(keys)):
         truth = dict(zip(keys, combo))
         expected = ref.bool_eval(ast, truth)
         routes = []
-        parsed = sut.call(api.parse_cond, text)
-        if not parsed.ok:
-            fail("parse", f"well-formed expression {text!r} was not parsed: {parsed!r}")
         inputs = {k: EvaluatedFormatConstraint(v, None if v else f"E{k}") for k, v in truth.items()}
         routes.append(("tree", sut.call(api.evaluate_format_constraint_tree, parsed.value, inputs), "format_constraint_fulfilled"))
         sut.setup_hardcoded(sut.make_cer(fc=truth))
@@ -119,6 +122,8 @@ def check(case):
                      f"but error_message = {message!r}")  # fmt: skip
             if message is not None and not isinstance(message, str):
                 fail("message-iff-unfulfilled", f"{name}: error_message {message!r} is not a string")
+        if parsed.value != pristine:
+            fail("tree-modified", f"evaluate_format_constraint_tree modified the tree of {text!r} that was passed in")
         units.append(([text, truth], depth >= 2 and len(kinds) >= 2 and len(set(combo)) == 2))
     return {"_units": units}
 
